@@ -20,14 +20,14 @@ if ! git apply --check $SRC/patch.diff 2>/dev/null; then
 else
   git apply $SRC/patch.diff
 fi
-git diff > /tmp/val/${P}_${N}.applied.diff
+git reset -q; git diff HEAD > /tmp/val/${P}_${N}.applied.diff
 NEEDBUILD=0
 if git diff --name-only | grep -qE '\.(pyx|pxi|pxd|cc)$'; then NEEDBUILD=1; /venv/bin/python setup.py build_ext -i -j4 > /tmp/val/${P}_${N}.build.log 2>&1 || { echo "RESULT build-failed" > $OUT; git -C /repo worktree remove --force $WT; exit 1; }; fi
 timeout 3000 /venv/bin/python -m pytest -q -p no:cacheprovider --timeout=900 -x test/ > /tmp/val/${P}_${N}.tests.log 2>&1
 TESTS=$(tail -3 /tmp/val/${P}_${N}.tests.log | grep -oE '[0-9]+ passed' | head -1)
 FAILED=$(tail -3 /tmp/val/${P}_${N}.tests.log | grep -oE '[0-9]+ failed' | head -1)
 timeout 1500 /venv/bin/python $SRC/demo.py > /tmp/val/${P}_${N}.demo_with.log 2>&1; DW=$?
-git checkout -- . 
+git checkout HEAD -- .
 if [ $NEEDBUILD = 1 ]; then cp /repo/pyiga/*.so $WT/pyiga/; fi
 rm -rf $WT/.xdgcache
 timeout 1500 /venv/bin/python $SRC/demo.py > /tmp/val/${P}_${N}.demo_without.log 2>&1; DO=$?
